@@ -43,6 +43,7 @@ EXTRA_DEPS = {"tower-resilience-fallback": ["tokio"]}
 INJECT = {
     "tower-resilience-circuitbreaker": [("circuit.rs", "in_circuit.rs", "kani")],
     "tower-resilience-ratelimiter": [("limiter.rs", "in_limiter.rs", "kani")],
+    "tower-resilience-healthcheck": [("wrapper.rs", "in_wrapper.rs", "kani")],
     "tower-resilience-core": [("aimd.rs", "in_aimd.rs", "kani"), ("aimd.rs", "in_aimd_rg.rs", 'all(kani, feature = "verif-hooks")')],
     "tower-resilience-adaptive": [("algorithm.rs", "in_algorithm.rs", "kani"), ("service.rs", "in_service.rs", "kani")],
     "tower-resilience-retry": [("budget.rs", "in_budget.rs", 'all(kani, feature = "verif-hooks")')],
@@ -311,15 +312,19 @@ PROPS["C18"] = Prop(
         _hc("round_robin_n2", "round-robin, 2 resources", "2 resources, any counter value", timeout=900, tiers=("thorough",)),
         _hc("empty_list_selects_nothing", "empty resource list", "", timeout=600),
         _hc("round_robin_successor", "round-robin: two consecutive selections return an eligible resource and its cyclic successor among the eligible ones (=> even visiting)", "3 resources, all status vectors, counter start < 2^32", timeout=1800),
+        _hc("wrapper_get_first_available", "get_healthy / get_usable through the real wrapper (filter, strategy, index mapping): only eligible resources, None iff none", "2 resources, all 4^2 published status vectors, first-available, get_healthy", profile="service", mem_gb=20, timeout=800, tiers=()),
+        _hc("wrapper_get_round_robin", "same with round-robin, get_healthy then get_usable", "2 resources, all 4^2 published status vectors", profile="service", mem_gb=20, timeout=3600, tiers=()),
         _hc("thresholds_two_ticks", "periodic check task: published status flips exactly at the thresholds; get_healthy/get_usable follow it",
-            "1 resource, 2 interval ticks, per-tick result symbolic (healthy/degraded/unhealthy/unknown/slower than timeout), thresholds 1..=3", profile="service", mem_gb=30, timeout=3000),
-        _hc("thresholds_three_ticks", "same, 3 ticks", "3 ticks", profile="service", mem_gb=30, timeout=5400, tiers=("thorough",)),
+            "1 resource, 2 interval ticks, per-tick result symbolic (healthy/degraded/unhealthy/unknown/slower than timeout), thresholds 1..=3", profile="service", mem_gb=30, timeout=5400, tiers=()),
+        _hc("thresholds_three_ticks", "same, 3 ticks", "3 ticks", profile="service", mem_gb=30, timeout=5400, tiers=()),
         _hc("custom_selector_sees_statuses", "custom selector receives the published statuses; its answer is returned", "3 resources", timeout=900),
     ],
     functions=["tower_resilience_healthcheck::selector::SelectionStrategy::select", "HealthCheckedContext::{new,status,set_status}"],
     bounds="<= 3 resources; all status vectors; 2 consecutive round-robin selections (inductive successor property)",
     outside="the THRESHOLD part of C18 (status flips after failure_threshold / success_threshold consecutive checks): that logic is a closure nested in two tokio::spawn calls inside "
-            "HealthCheckWrapper::start and is not reached by these harnesses; random strategy (feature `random`); more than 3 resources; wrap-around of the round-robin counter at usize::MAX",
+            "HealthCheckWrapper::start; harnesses thresholds_two_ticks / _three_ticks exist (tiers=()) but did not finish in 68 min at 12 GB; the wrapper's own get_healthy / get_usable "
+            "(filter + index mapping around select; harnesses wrapper_get_*, tiers=()) ran out of 20 GB / 800 s even with 2 resources (drop glue of the cloned contexts: "
+            "Arc<RwLock<HashMap<String, Box<dyn Any>>>>), so what is decided is SelectionStrategy::select on the published statuses; random strategy (feature `random`); more than 3 resources; wrap-around of the round-robin counter at usize::MAX",
     assumptions=["std::hash::RandomState::new stubbed (zeroed keys; the extension map is never touched)"],
 )
 
@@ -334,7 +339,10 @@ _t6 = lambda n, what, **kw: H("verif_kani::c06::" + n, TLM, what,
 PROPS["C06"] = Prop(
     harnesses=[_t6("cancel_fixed_timeout", "cancellation on, fixed timeout"), _t6("cancel_per_request_timeout", "cancellation on, per-request timeout", tiers=("thorough",)),
                _t6("no_cancel_fixed_timeout", "cancellation off: spawn + oneshot + select!; background call keeps running"),
-               _t6("builder_is_faithful", "builder -> layer -> service: configured timeout and cancellation mode are used")],
+               _t6("cancel_huge_timeout", "cancellation on, timeout from 10^6 s up to Duration::MAX: never times out"),
+               _t6("no_cancel_huge_timeout", "cancellation off, same", tiers=("thorough",)),
+               _t6("builder_is_faithful", "builder -> layer -> service: configured timeout and cancellation mode are used"),
+               _t6("builder_timeout_fn_is_faithful", "builder with timeout_fn (type-changing step) in both orders: per-request timeout and cancellation mode are used")],
     functions=["tower_resilience_timelimiter::TimeLimiter::{new,poll_ready,call}", "TimeoutFn::get_timeout (FixedTimeout, DynamicTimeout)"],
     bounds="one call, 2 polls, timeout <= 60 s, latency <= 90 s or never",
     outside="several concurrent calls (they share no state: each call future owns its clone and its timer); that tokio's timer wakes the task AT the deadline is tokio's (the model lets the harness poll at any instant, so 'never pending at or after the deadline' is what is decided)",
@@ -382,6 +390,8 @@ PROPS["C11"] = Prop(
         _c11("leader_waiter_and_other_key", "one inner call per key; waiter gets a clone of the leader's result or LeaderCancelled at its next poll; key reusable at once; keys independent",
              "3 requests over 2 keys through clones of one service (+ a 4th after completion/cancellation); leader completed (inner completes at a poll of the solver's choice, ok/err) or dropped; all 32-bit requests/results"),
         _c11("dropped_waiter_is_harmless", "a dropped waiter does not disturb the leader or other waiters", "1 leader, 2 waiters on one key"),
+        _c11("lone_leader_dropped_key_reusable", "a leader dropped (before or after its first poll, finished or not) while nobody waits frees its key: the next request starts its own call and resolves with it",
+             "2 requests on one key, all 32-bit requests/results"),
     ],
     functions=["tower_resilience_coalesce::service::{CoalesceService::{new,poll_ready,call},CoalesceFuture::{poll,drop},InFlight::{try_join,complete,cancel}}"],
     bounds="<= 4 requests over 2 keys, fixed creation order (leader, waiter, other key), leader outcome and cancellation symbolic",
@@ -469,8 +479,8 @@ def _retier(h, tiers):
     h2.tiers = tiers
     return h2
 _c20refs_quick = [_ref("C03", "c03_call_wiring"), _ref("C17", "strategy_value"), _ref("C13", "in_flight_exact_one_call"), _ref("C02", "call_wiring")]
-_c20refs_thorough = [_ref("C01", "one_call_any_availability"), _ref("C11", "dropped_waiter_is_harmless"), _ref("C03", "c03_call_wiring_with_fallback"), _ref("C06", "cancel_fixed_timeout"), _ref("C06", "no_cancel_fixed_timeout"), _ref("C19", "one_request_all_rolls"),
-                     _ref("C05", "plain"), _ref("C16", "custom_policy_predicate_retry"), _ref("C11", "leader_waiter_and_other_key")]
+_c20refs_thorough = [_ref("C01", "one_call_any_availability"), _ref("C11", "dropped_waiter_is_harmless"), _ref("C03", "c03_call_wiring_with_fallback"), _ref("C06", "cancel_fixed_timeout"), _ref("C06", "no_cancel_fixed_timeout"), _ref("C06", "cancel_huge_timeout"), _ref("C19", "one_request_all_rolls"),
+                     _ref("C05", "plain"), _ref("C16", "custom_policy_predicate_retry"), _ref("C11", "leader_waiter_and_other_key"), _ref("C11", "lone_leader_dropped_key_reusable")]
 PROPS["C20"] = Prop(
     harnesses=_c20new + [_retier(h, ("quick", "thorough")) for h in _c20refs_quick] + [_retier(h, ("thorough",)) for h in _c20refs_thorough],
     functions=["Service::{poll_ready,call} of bulkhead, circuit breaker (+fallback variant), rate limiter, time limiter, retry, fallback, hedge, reconnect, adaptive, coalesce, executor, chaos",
